@@ -35,6 +35,16 @@ var SyntaxTable = map[string]Syntax{
 	"semver":     {Ops: []string{">=", "<=", "!=", ">", "<", "="}, And: []string{" ", ",", ", "}},
 }
 
+// Nots0 returns the ecosystem's first "not equal" comparator, or "".
+func (s Syntax) Nots0() string {
+	for _, o := range s.Ops {
+		if OpMeaning(o) == "!=" {
+			return o
+		}
+	}
+	return ""
+}
+
 // OpMeaning maps a comparator spelling to its canonical relation.
 func OpMeaning(op string) string {
 	switch op {
